@@ -454,3 +454,53 @@ Definition construct2_default : res object2 :=
 End Construct.
 Arguments object1 T : clear implicits.
 Arguments object2 T : clear implicits.
+
+(** ** Sessions: several objects alive in one process, holding possibly different tables.
+    An object is the number of the table it holds plus its mutable members; the objects of the process
+    live in numbered slots.  The compiler-generated copy constructor / copy assignment / move
+    assignment / std::swap / destructor are member-wise: a copy receives the table AND the members of
+    its source and shares nothing with it afterwards, so that whatever later happens to the source
+    (further calls, assignment of another table, destruction) is invisible on the copy, and vice versa.
+    Generic in the member state (1-D: [state], 2-D: [state2]); [tstep t] is the step function of an object
+    holding table number t. *)
+Section Session.
+Variables (St Op Out : Type).
+Variable tstep : nat -> St -> Op -> St * Out.
+Variable tinit : St.          (* the members after construction: the same for every table *)
+Variable onone : Out.         (* what a void operation shows *)
+
+Record sobj : Type := mkSobj { so_tab : nat; so_st : St }.
+Definition store : Type := list (option sobj).
+
+Definition get_slot (k : nat) (s : store) : option sobj := nth k s None.
+Fixpoint set_slot (k : nat) (v : option sobj) (s : store) : store :=
+  match k with
+  | O => v :: tl s
+  | S k' => hd None s :: set_slot k' v (tl s)
+  end.
+
+Inductive sop : Type :=
+| SQuery (k : nat) (q : Op)        (* a member call on the object in slot k *)
+| SConstruct (k t : nat)           (* slot k = Interpolation(table t, ...): new object or assignment from a temporary *)
+| SCopy (a b : nat)                (* slot b = copy of slot a: copy construction or copy assignment *)
+| SSwap (a b : nat)                (* std::swap(slot a, slot b) *)
+| SDestroy (k : nat).              (* the object in slot k is destroyed *)
+
+Definition sstep (s : store) (o : sop) : store * Out :=
+  match o with
+  | SQuery k q =>
+      match get_slot k s with
+      | Some ob => let r := tstep (so_tab ob) (so_st ob) q in
+                   (set_slot k (Some (mkSobj (so_tab ob) (fst r))) s, snd r)
+      | None => (s, onone)
+      end
+  | SConstruct k t => (set_slot k (Some (mkSobj t tinit)) s, onone)
+  | SCopy a b => (match get_slot a s with Some ob => set_slot b (Some ob) s | None => s end, onone)
+  | SSwap a b => (set_slot a (get_slot b s) (set_slot b (get_slot a s) s), onone)
+  | SDestroy k => (set_slot k None s, onone)
+  end.
+
+Definition srun (h : list sop) (s : store) : store := fold_left (fun s o => fst (sstep s o)) h s.
+End Session.
+Arguments mkSobj {St}. Arguments so_tab {St}. Arguments so_st {St}.
+Arguments SQuery {Op}. Arguments SConstruct {Op}. Arguments SCopy {Op}. Arguments SSwap {Op}. Arguments SDestroy {Op}.
